@@ -809,6 +809,13 @@ class AsyncFIXConnection:
                     return
                 await self._state_set(ConnectionState.LOGON_INITIAL_RECV)
                 self._connection_role = ConnectionRole.ACCEPTOR
+            elif self._connection_state == ConnectionState.LOGON_INITIAL_SENT:
+                # Applicable only for initiator
+                if msg.msg_type != FMsg.LOGON and msg.msg_type != FMsg.LOGOUT:
+                    # Nothing except Logon() response (or Logout() refusal) is
+                    #   acceptable until session is established
+                    await self.disconnect(ConnectionState.DISCONNECTED_BROKEN_CONN)
+                    return
 
             if msg.msg_type == FMsg.LOGON:
                 await self._process_logon(msg)
